@@ -46,6 +46,7 @@ type Contract struct {
 	NoPanic  bool // generate implicit safety obligations
 	RealFloat bool // float64 treated as exact reals in this function's obligations
 	Logical  [][2]string // logical (universally quantified) variables: name, type text
+	AssumeFresh []string // callee expression texts whose calls return freshly allocated values and modify nothing
 	AssumePure []string // callee expression texts whose calls (through function values) are assumed pure
 	Requires []*Clause
 	Ensures  []*Clause
@@ -61,6 +62,7 @@ type Contract struct {
 }
 
 type GhostDecl struct {
+	Scope   string
 	PkgPath string
 	Name    string
 	Sig     string // Go signature text "(x any) int"
@@ -70,6 +72,7 @@ type GhostDecl struct {
 }
 
 type SpecFunc struct {
+	Scope   string
 	PkgPath string
 	Name    string
 	Text    string // complete "func name(...) T { return ... }"
@@ -90,15 +93,16 @@ type Contracts struct {
 	Globals []*GlobalInv
 	Lemmas  []*Clause
 	LemmaPk map[*Clause]string
+	LemmaScope map[*Clause]string
 	Files   []string
 	Scope   map[string]string // package path -> file whose imports are visible to spec/ghost/lemma declarations
 }
 
-var clauseHead = regexp.MustCompile(`^(scope|func|iface|realfloat|assume_pure|logical|pure_heap|pure|inline|trusted|nopanic|requires|ensures|modifies|loop|capture|assert@|ghost|spec|global|lemma)\b`)
+var clauseHead = regexp.MustCompile(`^(scope|func|iface|realfloat|assume_pure|assume_fresh|logical|pure_heap|pure|inline|trusted|nopanic|requires|ensures|modifies|loop|capture|assert@|ghost|spec|global|lemma)\b`)
 var labelRe = regexp.MustCompile(`^\[([^\]]+)\]\s*`)
 
 func parseContracts(repo string) (*Contracts, error) {
-	cs := &Contracts{ByKey: map[string]*Contract{}, LemmaPk: map[*Clause]string{}, Scope: map[string]string{}}
+	cs := &Contracts{ByKey: map[string]*Contract{}, LemmaPk: map[*Clause]string{}, Scope: map[string]string{}, LemmaScope: map[*Clause]string{}}
 	var files []string
 	_ = filepath.Walk(repo, func(p string, info os.FileInfo, err error) error {
 		if err != nil {
@@ -197,14 +201,14 @@ func (cs *Contracts) parseFile(file, pkgPath string) error {
 			if i < 0 {
 				return fmt.Errorf("%s:%d: bad ghost decl", file, it.line)
 			}
-			cs.Ghosts = append(cs.Ghosts, &GhostDecl{PkgPath: pkgPath, Name: strings.TrimSpace(rest[:i]), Sig: rest[i:], Heap: heap, File: file, Line: it.line})
+			cs.Ghosts = append(cs.Ghosts, &GhostDecl{Scope: cs.Scope[pkgPath], PkgPath: pkgPath, Name: strings.TrimSpace(rest[:i]), Sig: rest[i:], Heap: heap, File: file, Line: it.line})
 		case "spec":
 			rest = strings.TrimPrefix(rest, "func ")
 			i := strings.Index(rest, "(")
 			if i < 0 {
 				return fmt.Errorf("%s:%d: bad spec func", file, it.line)
 			}
-			cs.Specs = append(cs.Specs, &SpecFunc{PkgPath: pkgPath, Name: strings.TrimSpace(rest[:i]), Text: "func " + rewriteImplies(rest), File: file, Line: it.line})
+			cs.Specs = append(cs.Specs, &SpecFunc{Scope: cs.Scope[pkgPath], PkgPath: pkgPath, Name: strings.TrimSpace(rest[:i]), Text: "func " + rewriteImplies(rest), File: file, Line: it.line})
 		case "global":
 			// global <var> invariant <expr>
 			f := strings.Fields(rest)
@@ -218,6 +222,7 @@ func (cs *Contracts) parseFile(file, pkgPath string) error {
 			cl := mkClause("lemma")
 			cs.Lemmas = append(cs.Lemmas, cl)
 			cs.LemmaPk[cl] = pkgPath
+			cs.LemmaScope[cl] = cs.Scope[pkgPath]
 		default:
 			if cur == nil {
 				return fmt.Errorf("%s:%d: clause outside func block: %s", file, it.line, t)
@@ -241,6 +246,8 @@ func (cs *Contracts) parseFile(file, pkgPath string) error {
 					return fmt.Errorf("%s:%d: logical <name> <type>", file, it.line)
 				}
 				cur.Logical = append(cur.Logical, [2]string{f[0], f[1]})
+			case "assume_fresh":
+				cur.AssumeFresh = append(cur.AssumeFresh, strings.ReplaceAll(rest, " ", ""))
 			case "assume_pure":
 				cur.AssumePure = append(cur.AssumePure, strings.ReplaceAll(rest, " ", ""))
 			case "requires":
